@@ -293,3 +293,17 @@ theorem xy_right_inv (a b : Int) (ha : 0 ≤ a) (hb : 0 ≤ b) :
   constructor <;> omega
 
 end Model.C11
+
+namespace Model.C11
+
+theorem xy_small : xyJToMn 1 = (0, 0) ∧ xyJToMn 2 = (1, 0) ∧ xyJToMn 3 = (0, 1) := by
+  have a := (xy_right_inv 0 0 (by decide) (by decide)).2
+  have b := (xy_right_inv 1 0 (by decide) (by decide)).2
+  have c := (xy_right_inv 0 1 (by decide) (by decide)).2
+  have ea : mnToXyJ 0 0 = 1 := by decide
+  have eb : mnToXyJ 1 0 = 2 := by decide
+  have ec : mnToXyJ 0 1 = 3 := by decide
+  rw [ea] at a; rw [eb] at b; rw [ec] at c
+  exact ⟨a, b, c⟩
+
+end Model.C11
